@@ -26,6 +26,29 @@ type parseUnit struct {
 	sites map[*ssa.Function][]ssa.CallInstruction // call sites inside the unit, by callee
 }
 
+// calleeOf: the function a call inside the unit runs: the static / visible-closure callee, or - for a call of a function value
+// whose origins are several (a callback parameter of a helper shared by both entry points, a member of a record) - the one origin
+// that belongs to this unit (the closure this entry point hands to the helper).
+func (u *parseUnit) calleeOf(c ssa.CallInstruction) *ssa.Function {
+	if g := calleeOf(c); g != nil {
+		return g
+	}
+	if c.Common().IsInvoke() {
+		return nil
+	}
+	var only *ssa.Function
+	for _, t := range closureTargets(c.Common().Value, 0, map[ssa.Value]bool{}) {
+		if !u.fns[t] {
+			continue
+		}
+		if only != nil && only != t {
+			return nil
+		}
+		only = t
+	}
+	return only
+}
+
 func newParseUnit(w *World, entry *ssa.Function) *parseUnit {
 	u := &parseUnit{w: w, entry: entry, fns: map[*ssa.Function]bool{}, sites: map[*ssa.Function][]ssa.CallInstruction{}}
 	var add func(fn *ssa.Function, depth int)
@@ -57,13 +80,103 @@ func newParseUnit(w *World, entry *ssa.Function) *parseUnit {
 	for fn := range u.fns {
 		forEachInstr(fn, func(_ *ssa.BasicBlock, ins ssa.Instruction) {
 			if c, ok := ins.(ssa.CallInstruction); ok {
-				if g := calleeOf(c); g != nil && u.fns[g] {
+				if g := u.calleeOf(c); g != nil && u.fns[g] {
 					u.sites[g] = append(u.sites[g], c)
 				}
 			}
 		})
 	}
 	return u
+}
+
+// originOf: where a value seen somewhere in the unit comes from, across the unit's own plumbing: a parameter is what the unit's
+// call sites pass (all the same thing), a unit function's result is what it returns (all the same thing), a member read from a
+// record built in the unit and assigned once is what was assigned. Anything else is its own origin.
+func (u *parseUnit) originOf(v ssa.Value, depth int) ssa.Value {
+	if v == nil || depth > 8 {
+		return v
+	}
+	v = stripIdentity(v)
+	same := func(vals []ssa.Value) ssa.Value {
+		var o ssa.Value
+		for _, a := range vals {
+			oa := u.originOf(a, depth+1)
+			if oa == nil || (o != nil && o != oa) {
+				return nil
+			}
+			o = oa
+		}
+		return o
+	}
+	returnsOf := func(g *ssa.Function, idx int) []ssa.Value {
+		var vals []ssa.Value
+		for _, b := range g.Blocks {
+			if ret, ok := b.Instrs[len(b.Instrs)-1].(*ssa.Return); ok && idx < len(ret.Results) {
+				vals = append(vals, ret.Results[idx])
+			}
+		}
+		return vals
+	}
+	switch x := v.(type) {
+	case *ssa.Parameter:
+		fn := x.Parent()
+		if fn == u.entry || !u.fns[fn] || len(u.sites[fn]) == 0 {
+			return v
+		}
+		idx := paramIndex(fn, x)
+		var vals []ssa.Value
+		for _, s := range u.sites[fn] {
+			if idx < 0 || idx >= len(s.Common().Args) {
+				return v
+			}
+			vals = append(vals, s.Common().Args[idx])
+		}
+		if o := same(vals); o != nil {
+			return o
+		}
+	case *ssa.Call:
+		if g := u.calleeOf(x); g != nil && u.fns[g] && g.Blocks != nil && g.Signature.Results().Len() == 1 {
+			if o := same(returnsOf(g, 0)); o != nil {
+				return o
+			}
+		}
+	case *ssa.Extract:
+		if c, ok := x.Tuple.(*ssa.Call); ok {
+			if g := u.calleeOf(c); g != nil && u.fns[g] && g.Blocks != nil {
+				if o := same(returnsOf(g, x.Index)); o != nil {
+					return o
+				}
+			}
+		}
+	case *ssa.UnOp:
+		if x.Op != token.MUL {
+			return v
+		}
+		fa, ok := x.X.(*ssa.FieldAddr)
+		if !ok {
+			return v
+		}
+		al, ok := u.originOf(fa.X, depth+1).(*ssa.Alloc)
+		if !ok || al.Referrers() == nil {
+			return v
+		}
+		var stored []ssa.Value
+		for _, ref := range *al.Referrers() {
+			fa2, ok := ref.(*ssa.FieldAddr)
+			if !ok || fa2.Field != fa.Field || fa2.Referrers() == nil {
+				continue
+			}
+			for _, r2 := range *fa2.Referrers() {
+				if st, ok := r2.(*ssa.Store); ok && st.Addr == ssa.Value(fa2) {
+					stored = append(stored, st.Val)
+				}
+			}
+		}
+		if len(stored) == 1 {
+			return u.originOf(stored[0], depth+1)
+		}
+	}
+	return v
 }
 
 func (u *parseUnit) funcs() []*ssa.Function {
@@ -346,7 +459,7 @@ func (u *parseUnit) contains(fn *ssa.Function, pred func(ssa.Instruction) bool, 
 			return
 		}
 		if c, ok := ins.(ssa.CallInstruction); ok {
-			if g := calleeOf(c); g != nil && u.fns[g] && u.contains(g, pred, seen) {
+			if g := u.calleeOf(c); g != nil && u.fns[g] && u.contains(g, pred, seen) {
 				found = true
 			}
 		}
@@ -363,7 +476,7 @@ func (u *parseUnit) sitesIn(fn *ssa.Function, pred func(ssa.Instruction) bool) [
 			return
 		}
 		if c, ok := ins.(ssa.CallInstruction); ok {
-			if g := calleeOf(c); g != nil && u.fns[g] && u.contains(g, pred, map[*ssa.Function]bool{}) {
+			if g := u.calleeOf(c); g != nil && u.fns[g] && u.contains(g, pred, map[*ssa.Function]bool{}) {
 				out = append(out, ins)
 			}
 		}
@@ -387,7 +500,7 @@ func (u *parseUnit) orderedBefore(fn *ssa.Function, a, b func(ssa.Instruction) b
 			if sa == sb {
 				// both inside the same callee
 				if c, isCall := sa.(ssa.CallInstruction); isCall {
-					if g := calleeOf(c); g != nil && u.fns[g] && u.orderedBefore(g, a, b, depth+1) {
+					if g := u.calleeOf(c); g != nil && u.fns[g] && u.orderedBefore(g, a, b, depth+1) {
 						ok = true
 					}
 				}
